@@ -255,13 +255,14 @@ Section Ledger.
   (* (1) signs *)
   Lemma rl_nonneg : 0 <= sw_kcals i -> forall m, (m < NM i)%nat ->
     (0 <= rh_sf ii m /\ 0 <= rh_cr ii m /\ 0 <= rh_sw ii m /\ 0 <= rh_cs ii m /\ 0 <= rh_scp ii m /\ 0 <= rh_meat ii m /\
-     0 <= nthq (k_ns ii) m) /\
+     0 <= nthq (k_imm ii) m /\ 0 <= nthq (k_ns ii) m) /\
     (0 <= rf_sf i c a m /\ 0 <= rf_cr i c a m /\ 0 <= rf_sw i c a m /\ 0 <= rf_cs i c a m /\ 0 <= rf_scp i c a m) /\
     (0 <= rb_sf i c a m /\ 0 <= rb_cr i c a m /\ 0 <= rb_sw i c a m /\ 0 <= rb_cs i c a m /\ 0 <= rb_scp i c a m) /\
     (0 <= nthq (p_sf ii) m /\ 0 <= nthq (p_cr ii) m /\ 0 <= nthq (p_sw ii) m /\ 0 <= nthq (p_cs ii) m /\
-     0 <= nthq (p_scp ii) m /\ 0 <= nthq (p_meat ii) m /\ 0 <= nthq (p_ns ii) m).
+     0 <= nthq (p_scp ii) m /\ 0 <= nthq (p_meat ii) m /\ 0 <= nthq (p_imm ii) m /\ 0 <= nthq (p_ns ii) m).
   Proof.
-    intros Hk m Hm. pose proof (K_pos i c HS) as KP. pose proof (lpc01_nonneg i ty a F) as NN.
+    intros Hk m Hm.
+    destruct (report_lp_imm_nonneg i c a e ii HS (proj1 F) R m Hm) as (_ & IP & IK). pose proof (K_pos i c HS) as KP. pose proof (lpc01_nonneg i ty a F) as NN.
     destruct (back_humans i c a e ii HS R m Hm) as (H1 & H2 & H3 & H4 & H5 & H6).
     destruct (back_feed_biofuel i c a HS m Hm) as ((F1 & F2 & F3 & F4 & F5) & (B1 & B2 & B3 & B4 & B5)).
     assert (V : forall b s, 0 <= bsel b (a s m)) by (intros; apply bsel_nonneg; apply NN).
@@ -270,7 +271,7 @@ Section Ledger.
     { cbn. rewrite (proj1 (proj2 HS)). apply km_pos; exact (proj1 HS). }
     destruct (report_split _ _ _ R (proj1 HS) KM m Hm) as (_ & (_ & N1) & (_ & N2)).
     split; [|split; [|split]].
-    - repeat split; try exact N2;
+    - repeat split; try exact N2; try exact IK;
         [eapply scaled_nonneg; [exact KP|exact H1|apply V] | eapply scaled_nonneg; [exact KP|exact H2|apply V]
         | eapply scaled_nonneg; [exact KP|exact H3|apply W] | eapply scaled_nonneg; [exact KP|exact H4|apply V]
         | eapply scaled_nonneg; [exact KP|exact H5|apply V] | eapply scaled_nonneg; [exact KP|exact H6|apply V]].
@@ -290,7 +291,7 @@ Section Ledger.
       assert (Z : forall v, 0 <= v -> 0 <= 100 * v / billion_kcals_needed c).
       { intros v Hv. apply Qle_shift_div_l; [exact NP|]. lra. }
       rewrite C1, C2, C3, C4, C5, C6.
-      repeat split; try exact N1; apply Z; rewrite ?Qmult_1_l; try apply V; apply W.
+      repeat split; try exact N1; try exact IP; apply Z; rewrite ?Qmult_1_l; try apply V; apply W.
   Qed.
 End Ledger.
 
@@ -364,10 +365,11 @@ Lemma ex_report_accepted :
   match report (report_in ex_in ex_conv01 (a_of ex_tbl_h)) with Ok _ => True | Rejected _ => False end.
 Proof. vm_compute. exact I. Qed.
 
-(* the series "outdoor crops eaten immediately" can be reported NEGATIVE: in a month whose harvest is smaller than
-   (feed + biofuel from crops) / KCALS_MONTHLY (the extractor subtracts feed and biofuel in billion people fed from
-   production in billion kcals), e.g. no harvest while stored crops go to feed.  Same instance as ex_in with the
-   harvest moved: 38 / 0 / 12. *)
+(* BEFORE the clamp fix (extract_gen false = the code without np.maximum(..., 0)) the series "outdoor crops eaten
+   immediately" could be reported NEGATIVE: in a month whose harvest is smaller than (feed + biofuel from crops) /
+   KCALS_MONTHLY (the extractor subtracts feed and biofuel in billion people fed from production in billion kcals), e.g.
+   no harvest while stored crops go to feed.  Same instance as ex_in with the harvest moved: 38 / 0 / 12.  With the
+   shipped (clamped) definition the same instance reports 0 (rl_nonneg). *)
 Definition ex_neg_in : lp_in :=
   {| NM := 3;
      add_sw := false; add_cr := true; add_sf := true; add_meat := false; add_scp := true; add_cs := false;
@@ -399,11 +401,11 @@ Definition ex_neg_tbl : list entry :=
 Lemma ex_neg_feasible : Feasible ex_neg_in ToHumans (a_of ex_neg_tbl).
 Proof. apply feasibleb_sound. vm_compute. reflexivity. Qed.
 
-Lemma reported_immediate_crops_can_be_negative :
+Lemma reported_immediate_crops_negative_before_clamp_fix :
   exists i c a e ii, lp_settings_ok i c /\ admissible i /\ Feasible i ToHumans a /\
-    report (report_in i c a) = Ok (e, ii) /\ nthq (k_imm ii) 1 < 0 /\ nthq (p_imm ii) 1 < 0.
+    report_before_clamp_fix (report_in i c a) = Ok (e, ii) /\ nthq (k_imm ii) 1 < 0 /\ nthq (p_imm ii) 1 < 0.
 Proof.
-  destruct (report (report_in ex_neg_in ex_conv01 (a_of ex_neg_tbl))) as [[e ii]|] eqn:E.
+  destruct (report_before_clamp_fix (report_in ex_neg_in ex_conv01 (a_of ex_neg_tbl))) as [[e ii]|] eqn:E.
   - exists ex_neg_in, ex_conv01, (a_of ex_neg_tbl), e, ii.
     split; [unfold lp_settings_ok, positive_settings; cbn; repeat split; reflexivity|].
     split; [unfold admissible, waste_ok; cbn; repeat split; lra|].
@@ -411,3 +413,9 @@ Proof.
     vm_compute in E. injection E as <- <-. split; vm_compute; reflexivity.
   - vm_compute in E. discriminate E.
 Qed.
+
+(* the same instance under the shipped code: accepted, and the column is 0 in that month *)
+Lemma ex_neg_after_fix :
+  match report (report_in ex_neg_in ex_conv01 (a_of ex_neg_tbl)) with
+  | Ok (_, ii) => nthq (k_imm ii) 1 == 0 | Rejected _ => False end.
+Proof. vm_compute. reflexivity. Qed.
